@@ -78,7 +78,8 @@ def rule_decomposition(repo, rule):
             g = comp.generators[0]
             if norm(g.iter) == "enumerate(%s)" % fb.params[-1] and isinstance(g.target, ast.Tuple) and len(g.target.elts) == 2:
                 i, b = norm(g.target.elts[0]), norm(g.target.elts[1])
-                if norm(comp.elt) in ("%s * (1 << %s)" % (b, i), "(1 << %s) * %s" % (i, b), "%s * 2 ** %s" % (b, i), "%s << %s" % (b, i)):
+                if norm(comp.elt) in ("%s * (1 << %s)" % (b, i), "(1 << %s) * %s" % (i, b), "%s * 2 ** %s" % (b, i), "%s << %s" % (b, i),
+                                      "2 ** %s * %s" % (i, b)):
                     ok = True
     if ok:
         rule.ok(fb.loc(), fb.fq, norm(rets[0].value), "bit i weighted by 2^i (same index from enumerate)")
@@ -178,7 +179,8 @@ def rule_packers(repo, rule, rule4):
         if isinstance(n, (ast.ListComp, ast.GeneratorExp)) and norm(n.generators[0].iter).startswith("enumerate("):
             t = n.generators[0].target
             i, b = norm(t.elts[0]), norm(t.elts[1])
-            if norm(n.elt) in ("(1 << %s) * %s" % (i, b), "%s * (1 << %s)" % (b, i), "%s << %s" % (b, i)):
+            if norm(n.elt) in ("(1 << %s) * %s" % (i, b), "%s * (1 << %s)" % (b, i), "%s << %s" % (b, i),
+                               "2 ** %s * %s" % (i, b), "%s * 2 ** %s" % (b, i)):
                 rule.ok(unf.loc(n), unf.fq, "plain unpack: bit i weighted 2^i")
             else:
                 rule.violation(unf.loc(n), unf.fq, norm(n.elt), "plain recomposition does not weight bit i by 2^i", "PackIntMod/unpack/weights")
@@ -207,7 +209,14 @@ def rule_packers(repo, rule, rule4):
     pl = repo.cls(PK, "PackList")
     blf, pkf, unf = method(pl, "bitlen"), method(pl, "pack"), method(pl, "unpack")
     b0 = ret_exprs(blf)
-    if b0 and norm(b0[0]).replace(" ", "") in ("sum([i.bitlen()foriinself.lst])", "sum(i.bitlen()foriinself.lst)"):
+    def _sum_of_children(e):
+        if isinstance(e, ast.Call) and norm(e.func) == "sum" and e.args and isinstance(e.args[0], (ast.ListComp, ast.GeneratorExp)):
+            c_ = e.args[0]
+            g_ = c_.generators[0]
+            return len(c_.generators) == 1 and not g_.ifs and norm(g_.iter) == "self.lst" and isinstance(g_.target, ast.Name) \
+                and norm(c_.elt) == "%s.bitlen()" % g_.target.id
+        return False
+    if b0 and _sum_of_children(b0[0]):
         rule.ok(blf.loc(), blf.fq, "bitlen = sum of children's bitlen()")
     else:
         rule.violation(blf.loc(), blf.fq, norm(b0[0]) if b0 else "", "PackList.bitlen is not the sum of its children's lengths", "PackList/bitlen")
@@ -219,17 +228,28 @@ def rule_packers(repo, rule, rule4):
         rule.violation(pkf.loc(), pkf.fq, t[:100], "PackList.pack is not the concatenation of its children's packs in order", "PackList/pack")
     inner = list(unf.children.values())
     okk = False
+    bitsp_, posp_ = unf.params[1], unf.params[2]
+
+    def _step_ok(scope_nodes, child):
+        adv = [n for n in scope_nodes if isinstance(n, ast.AugAssign) and norm(n.target) == posp_]
+        call = [n for n in scope_nodes if isinstance(n, ast.Call) and norm(n.func) == "%s.unpack" % child]
+        return bool(adv) and norm(adv[0].value) == "%s.bitlen()" % child and isinstance(adv[0].op, ast.Add) and bool(call) \
+            and [norm(a) for a in call[0].args] == [bitsp_, posp_] and call[0].lineno <= adv[0].lineno
     if inner:
         f = inner[0]
-        body = norm(f.node.body)
         child = f.params[0]
-        adv = [n for n in ast.walk(f.node) if isinstance(n, ast.AugAssign) and norm(n.target) == unf.params[2]]
-        call = [n for n in ast.walk(f.node) if isinstance(n, ast.Call) and norm(n.func) == "%s.unpack" % child]
-        okk = bool(adv) and norm(adv[0].value) == "%s.bitlen()" % child and isinstance(adv[0].op, ast.Add) and call \
-            and [norm(a) for a in call[0].args] == [unf.params[1], unf.params[2]] and call[0].lineno < adv[0].lineno \
-            and any(isinstance(n, ast.Nonlocal) and unf.params[2] in n.names for n in ast.walk(f.node))
+        okk = _step_ok(list(ast.walk(f.node)), child) and any(isinstance(n, ast.Nonlocal) and posp_ in n.names for n in ast.walk(f.node))
         r0 = ret_exprs(unf)
-        okk = okk and r0 and "map(%s, self.lst)" % f.name in norm(r0[0])
+        okk = okk and bool(r0) and "map(%s, self.lst)" % f.name in norm(r0[0])
+    else:
+        loops_ = [n for n in unf.node.body if isinstance(n, ast.For) and norm(n.iter) == "self.lst" and isinstance(n.target, ast.Name)]
+        if loops_:
+            lp = loops_[0]
+            child = lp.target.id
+            app = [n for n in ast.walk(lp) if isinstance(n, ast.Call) and norm(n.func).endswith(".append")]
+            okk = _step_ok(list(ast.walk(lp)), child) and bool(app)
+            r0 = ret_exprs(unf)
+            okk = okk and bool(r0) and app and norm(r0[0]) == norm(app[0].func.value)
     if okk:
         rule.ok(unf.loc(), unf.fq, "each child unpacks at pos, then pos += child.bitlen(), children in order")
     else:
